@@ -180,6 +180,15 @@ CURATED = [
     "def p(a: Tuple[Tuple[bool, bool], Tuple[bool, bool, bool]]) -> bool:\n\treturn all(a[1]) or any(a[0])",
     "def p(a: Tuple[Tuple[Qint[2], Qint[2]], Tuple[Qint[2], Qint[2], Qint[2]]]) -> Qint[4]:\n\treturn sum(a[1]) + max(a[0])",
     "def p(a: Tuple[Tuple[bool, bool, bool], Tuple[bool, bool]]) -> bool:\n\ts = False\n\tfor x in a[1]:\n\t\ts = s ^ x\n\tfor y in a[0]:\n\t\ts = s ^ y\n\treturn s",
+    # negative constant indices (rejected, or Python's from-the-end meaning)
+    "def p(a: Qlist[bool, 3]) -> bool:\n\treturn a[-1]",
+    "def p(a: Qint[2]) -> bool:\n\treturn a[-1]",
+    "def p(a: Tuple[bool, Qint[2]]) -> bool:\n\treturn a[-2]",
+    # a tuple / list of VARIABLES used after one of the variables was re-assigned (Python: the tuple keeps the old values)
+    "def p(a: bool, b: bool) -> bool:\n\tt = (a, b)\n\ta = not a\n\treturn t[0]",
+    "def p(a: bool, b: bool) -> bool:\n\tt = (a, b)\n\ta = not a\n\treturn all(t)",
+    "def p(a: Qint[2], b: Qint[2]) -> Qint[4]:\n\tt = [a, b]\n\ta = 3\n\treturn sum(t)",
+    "def p(a: Qint[2], b: Qint[2]) -> Qint[2]:\n\tt = [a, b]\n\tb = a\n\treturn max(t)",
     # modulo: literal power of two, literal non-power (outside the subset), variable modulus
     "def p(a: Qint[4]) -> Qint[4]:\n\treturn a % 4",
     "def p(a: Qint[4]) -> Qint[4]:\n\treturn a % 3",
